@@ -950,10 +950,15 @@ class Gen(object):
             names = ["%d" % i for i in range(1, 100)]
         else:
             names = ["%d" % i for i in range(1, 1000)]
+        holes = []
         if kind.endswith("holes") or r.random() < 0.3:
             for _ in range(r.randint(1, 4)):
                 if len(names) > 1:
-                    names.pop(r.randrange(len(names)))
+                    holes.append(names.pop(r.randrange(len(names))))
+        if holes and r.random() < 0.5:
+            # another spelling of a free value is in use (leading zeros, other decimal digits)
+            h = r.choice(holes)
+            names.append(r.choice(["0" + h, "00" + h, "".join(chr(0xFF10 + int(ch)) for ch in h), h + " ", "+" + h]))
         if r.random() < 0.4:
             # names outside 1..999 are in use as well (an earlier overflow allocation, words)
             names += r.sample(["1000", "4711", "123456", "word", "0", "007", "x-1", "9999999"], r.randint(1, 6))
